@@ -229,11 +229,11 @@ def parts(tier):
     g = 2048 if tier == "quick" else 20000
     return [
         Part("small", strategy=lambda t: pc.system_case(profile="small", guard=g), check=check,
-             quick=(3, 1200), thorough=(6, 9000)),
+             quick=(3, 1200), thorough=(6, 14000)),
         Part("wide", strategy=lambda t: pc.system_case(profile="wide", guard=g), check=check,
-             quick=(2, 800), thorough=(4, 6000)),
+             quick=(2, 800), thorough=(4, 9000)),
         Part("model", strategy=lambda t: pc.model_poly_case(guard=g), check=check,
-             quick=(2, 600), thorough=(4, 5000)),
+             quick=(2, 600), thorough=(4, 7500)),
         Part("model_wide", strategy=lambda t: pc.model_poly_case(guard=g, wide=True), check=check,
-             quick=(1, 400), thorough=(2, 3000)),
+             quick=(1, 400), thorough=(2, 5000)),
     ]
